@@ -87,6 +87,35 @@ class Check:
             return 2
         return 0
 
+def _sub_run(args):
+    modname, fname, pid, tier, seed, level, arg = args
+    import importlib
+    mod = importlib.import_module(modname)
+    sub = Check(pid, tier, seed, level)
+    try: getattr(mod, fname)(sub, arg)
+    except Exception as e:
+        from .mirsym.interp import Unsupported
+        traceback.print_exc()
+        sub.inconclusive.append(('unsupported=' if isinstance(e, Unsupported) else 'error=') + repr(e)[:200])
+    return {k: getattr(sub, k) for k in ('obl', 'violations', 'known_hits', 'inconclusive', 'timeouts', 'functions', 'models', 'bounds', 'assumptions', 'samples', 'solver_s', 'queries', 'paths', 'twins', 'unwinding', 'native_replays')}
+
+def run_parallel(chk, modname, fname, args, procs=None):
+    """run mod.fname(sub_check, arg) for every arg in its own process and merge the bookkeeping into chk"""
+    import multiprocessing as mp
+    from . import front
+    front.build_native()
+    jobs = [(modname, fname, chk.pid, chk.tier, chk.seed, chk.level, a) for a in args]
+    with mp.Pool(procs or min(len(jobs), 14)) as pool: results = pool.map(_sub_run, jobs, chunksize=1)
+    for r in results:
+        chk.obl += r['obl']; chk.violations += r['violations']; chk.inconclusive += r['inconclusive']; chk.timeouts += r['timeouts']
+        chk.known_hits += [h for h in r['known_hits'] if h not in chk.known_hits]
+        chk.functions |= r['functions']; chk.models |= r['models']; chk.bounds.update(r['bounds'])
+        chk.assumptions += [a for a in r['assumptions'] if a not in chk.assumptions]
+        chk.samples += r['samples'][:max(0, 12 - len(chk.samples))]
+        chk.solver_s += r['solver_s']; chk.queries += r['queries']; chk.paths += r['paths']; chk.native_replays += r['native_replays']
+        for k in ('expected_sat', 'got_sat'): chk.twins[k] += r['twins'][k]
+        for k in ('assertions', 'unsat'): chk.unwinding[k] += r['unwinding'][k]
+
 def main(argv):
     import argparse, importlib
     ap = argparse.ArgumentParser()
